@@ -12,7 +12,8 @@ use zmq_simrt as rt;
 
 #[derive(Default)]
 struct St {
-    conns: Vec<Option<(Arc<rt::net::Conn>, u16)>>,
+    /// (connection, client port, the library's side of it)
+    conns: Vec<Option<(Arc<rt::net::Conn>, u16, usize)>>,
     keep: Vec<RawPeer>,
     viol: Vec<(&'static str, String)>,
     done: bool,
@@ -24,7 +25,7 @@ struct St {
 fn drain_monitor(mon: &mut futures::channel::mpsc::Receiver<SocketEvent>, members: &mut BTreeSet<usize>, st: &St) {
     while let Ok(Some(ev)) = mon.try_next() {
         if let SocketEvent::Accepted(Endpoint::Tcp(_, port), _) = ev {
-            if let Some(i) = st.conns.iter().position(|c| matches!(c, Some((_, p)) if *p == port)) {
+            if let Some(i) = st.conns.iter().position(|c| matches!(c, Some((_, p, _)) if *p == port)) {
                 members.insert(i);
             }
         }
@@ -32,14 +33,50 @@ fn drain_monitor(mon: &mut futures::channel::mpsc::Receiver<SocketEvent>, member
 }
 
 fn rr_world(ctx: &mut Ctx) {
+    rr(ctx, false)
+}
+/// the socket dials out: every peer is a harness listener, some of which appear only after a
+/// (virtual) delay, so that `connect` goes through the library's refused-retry-with-backoff loop
+fn rr_connect(ctx: &mut Ctx) {
+    rr(ctx, true)
+}
+
+async fn serve_peer(mut peer: RawPeer, kind: Kind, s3: Rc<RefCell<St>>) {
+    if kind == Kind::Req {
+        // answer every request so that the REQ socket can alternate
+        let mut answered = 0usize;
+        loop {
+            if !peer.wait_messages(answered + 1).await {
+                break;
+            }
+            let n = peer.inbound().messages().len();
+            while answered < n {
+                if peer.send_msg(&[vec![], b"ok".to_vec()]).await.is_err() {
+                    return world::park().await;
+                }
+                answered += 1;
+            }
+        }
+    }
+    s3.borrow_mut().keep.push(peer);
+    world::park().await;
+}
+
+fn rr(ctx: &mut Ctx, dial: bool) {
     world::swarm(ctx, SwarmOpts::default());
     let kind = [Kind::Push, Kind::Dealer, Kind::Req][(ctx.idx % 3) as usize];
     let k = ((ctx.idx / 3) % 5) as usize; // 0..4 peers, walked by the case index
+    // dial mode: listener i exists from (virtual) millisecond late[i] on; the socket connects to it
+    // before send number at[i]
+    let late: Vec<u64> = (0..k).map(|_| if !dial || ctx.plan(2) == 0 { 0 } else { 1 + ctx.plan(9000) }).collect();
     let starts: Vec<u32> = (0..k).map(|_| if ctx.plan(3) == 0 { 0 } else { ctx.plan(40) as u32 }).collect();
     let stypes: Vec<&'static str> = (0..k).map(|_| kind.peers()[ctx.plan(kind.peers().len() as u64) as usize]).collect();
     let nsends = 1 + ctx.plan(14) as usize;
     let shapes: Vec<Vec<usize>> = (0..nsends).map(|_| (0..1 + ctx.plan(3)).map(|_| ctx.plan_pick(&[0usize, 1, 10, 255, 256, 2000, 9000])).collect()).collect();
     let gaps: Vec<u32> = (0..nsends).map(|_| ctx.plan(6) as u32).collect();
+    let mut at: Vec<usize> = (0..k).map(|_| if !dial || ctx.plan(2) == 0 { 0 } else { ctx.plan(nsends as u64) as usize }).collect();
+    at.sort();
+    let v6: Vec<bool> = (0..k).map(|_| dial && ctx.plan(4) == 0).collect();
     let st = Rc::new(RefCell::new(St::default()));
     st.borrow_mut().conns = vec![None; k];
     let s2 = st.clone();
@@ -47,53 +84,73 @@ fn rr_world(ctx: &mut Ctx) {
     rt::task::spawn_local("app", async move {
         let mut sock = AnySock::new(kind, None);
         let mut mon = sock.monitor();
-        let ep = sock.bind("tcp://127.0.0.1:0").await.expect("bind").to_string();
+        let ep = if dial { String::new() } else { sock.bind("tcp://127.0.0.1:0").await.expect("bind").to_string() };
+        let dial_eps: Vec<String> = (0..k).map(|i| if v6[i] { format!("tcp://[::1]:{}", 21000 + i) } else { format!("tcp://127.0.0.1:{}", 21000 + i) }).collect();
         for i in 0..k {
             let (ep, s3, start, stype) = (ep.clone(), s2.clone(), starts[i], stypes[i]);
+            if dial {
+                let (lep, late_ms) = (dial_eps[i].clone(), late[i]);
+                rt::task::spawn_local("listener", async move {
+                    if late_ms > 0 {
+                        rt::task::sleep(std::time::Duration::from_millis(late_ms)).await;
+                        rt::count("probe_listener_appeared_late");
+                    }
+                    let Ok((l, _)) = world::RawListener::bind(&lep) else { return };
+                    let Ok(mut peer) = l.accept().await else { return };
+                    s3.borrow_mut().conns[i] = Some((peer.conn.clone(), 0, 1 - peer.side));
+                    if peer.hello(stype, None).await.is_err() {
+                        return;
+                    }
+                    let _l = l;
+                    serve_peer(peer, kind, s3).await;
+                });
+                continue;
+            }
             rt::task::spawn_local("peer", async move {
                 for _ in 0..start {
                     rt::task::yield_now().await;
                 }
                 let Ok(mut peer) = RawPeer::connect(&ep) else { return };
                 let port = peer.s.local_addr().map(|a| a.port()).unwrap_or(0);
-                s3.borrow_mut().conns[i] = Some((peer.conn.clone(), port));
+                s3.borrow_mut().conns[i] = Some((peer.conn.clone(), port, 1 - peer.side));
                 if peer.hello(stype, None).await.is_err() {
                     return;
                 }
-                if kind == Kind::Req {
-                    // answer every request so that the REQ socket can alternate
-                    let mut answered = 0usize;
-                    loop {
-                        if !peer.wait_messages(answered + 1).await {
-                            break;
-                        }
-                        let n = peer.inbound().messages().len();
-                        while answered < n {
-                            if peer.send_msg(&[vec![], b"ok".to_vec()]).await.is_err() {
-                                return world::park().await;
-                            }
-                            answered += 1;
-                        }
-                    }
-                }
-                s3.borrow_mut().keep.push(peer);
-                world::park().await;
+                serve_peer(peer, kind, s3).await;
             });
         }
         let mut members: BTreeSet<usize> = BTreeSet::new();
+        let mut next_dial = 0usize;
         for n in 0..nsends {
             for _ in 0..gaps[n] {
                 rt::task::yield_now().await;
             }
+            while dial && next_dial < k && at[next_dial] <= n {
+                // connect() returns once the handshake is complete and the peer is registered
+                let t0 = rt::now();
+                match sock.connect(&dial_eps[next_dial]).await {
+                    Ok(()) => {
+                        members.insert(next_dial);
+                        if rt::now() > t0 {
+                            rt::count("probe_connect_retried_after_refusal");
+                        }
+                    }
+                    Err(e) => {
+                        s2.borrow_mut().viol.push(("connect_failed", format!("{} connect to listener {next_dial} failed: {e}", kind.name())));
+                        return world::park().await;
+                    }
+                }
+                next_dial += 1;
+            }
             drain_monitor(&mut mon, &mut members, &s2.borrow());
             let at_invoke = members.clone();
-            let conns: Vec<Option<Arc<rt::net::Conn>>> = s2.borrow().conns.iter().map(|c| c.as_ref().map(|c| c.0.clone())).collect();
-            let before: Vec<usize> = conns.iter().map(|c| c.as_ref().map(|c| c.tap_len_from(1)).unwrap_or(0)).collect();
+            let conns: Vec<Option<(Arc<rt::net::Conn>, usize)>> = s2.borrow().conns.iter().map(|c| c.as_ref().map(|c| (c.0.clone(), c.2))).collect();
+            let before: Vec<usize> = conns.iter().map(|c| c.as_ref().map(|c| c.0.tap_len_from(c.1)).unwrap_or(0)).collect();
             let body = tagged(0, n as u32, &shapes[n]);
             let r = sock.send(to_zmq(&body)).await;
             // connections created during the call count from zero
-            let conns: Vec<Option<Arc<rt::net::Conn>>> = s2.borrow().conns.iter().map(|c| c.as_ref().map(|c| c.0.clone())).collect();
-            let after: Vec<usize> = conns.iter().map(|c| c.as_ref().map(|c| c.tap_len_from(1)).unwrap_or(0)).collect();
+            let conns: Vec<Option<(Arc<rt::net::Conn>, usize)>> = s2.borrow().conns.iter().map(|c| c.as_ref().map(|c| (c.0.clone(), c.2))).collect();
+            let after: Vec<usize> = conns.iter().map(|c| c.as_ref().map(|c| c.0.tap_len_from(c.1)).unwrap_or(0)).collect();
             drain_monitor(&mut mon, &mut members, &s2.borrow());
             let wire: Vec<Vec<u8>> = if kind == Kind::Req {
                 let mut w = vec![vec![]];
@@ -108,8 +165,8 @@ fn rr_world(ctx: &mut Ctx) {
             // and at what follows the handshake on the others
             let delta = |j: usize| -> Vec<u8> {
                 match &conns[j] {
-                    Some(c) => {
-                        let tap = c.tap_from(1);
+                    Some((c, side)) => {
+                        let tap = c.tap_from(*side);
                         let p = rc::parse_stream(&tap);
                         let hs_end = p.items.get(1).map(|s| s.end).unwrap_or(tap.len());
                         let from = before[j].max(hs_end.min(tap.len()));
@@ -131,7 +188,7 @@ fn rr_world(ctx: &mut Ctx) {
                         return world::park().await;
                     }
                     if !members.contains(&j) {
-                        s2.borrow_mut().viol.push(("sent_to_unadmitted_peer", format!("{} send #{n} went to peer {j}, which no Accepted event announced", kind.name())));
+                        s2.borrow_mut().viol.push(("sent_to_unadmitted_peer", format!("{} send #{n} went to peer {j}, which no Accepted event / completed connect had announced", kind.name())));
                         return world::park().await;
                     }
                     s2.borrow_mut().sends.push((j, at_invoke, members.clone()));
@@ -224,8 +281,11 @@ pub fn def() -> PropDef {
     PropDef {
         id: "C10",
         level: "exploration",
-        rule: "case index walks socket kind (PUSH/DEALER/REQ) x peer count 0..4; peers join after drawn delays (some before the first send, some between sends); 1..14 sends with drawn shapes; connection taps are snapshotted at the instant send returns (same task step); membership is taken from Accepted monitor events; rotation is asserted only over maximal runs of sends with unchanged membership; non-trivial = a rotation window of >= 2 peers was judged or a no-peer send was judged; distinct = distinct (plan, schedule, transport) hashes",
+        rule: "case index walks socket kind (PUSH/DEALER/REQ) x peer count 0..4; peers join after drawn delays (some before the first send, some between sends) - in rr_world by connecting to the bound socket (membership from Accepted monitor events), in rr_connect by being dialled with connect() at drawn positions between the sends, some listeners appearing only after a drawn virtual delay of up to 9 s so that connect() goes through the library's refused / back-off / retry loop on the simulated clock (membership = completed connect calls); 1..14 sends with drawn shapes; connection taps are snapshotted at the instant send returns (same task step); membership is taken from Accepted monitor events; rotation is asserted only over maximal runs of sends with unchanged membership; non-trivial = a rotation window of >= 2 peers was judged or a no-peer send was judged; distinct = distinct (plan, schedule, transport) hashes",
         assumptions: &["peers do not depart in this scenario (departure + rejoin is judged under C16)", "REQ partners always reply, so that REQ can alternate"],
-        strata: vec![Stratum { name: "rr_world", quick: 120_000, thorough: (2_000_000) * 5, exhaustive: (false, false), run: rr_world, what: "send placement at return time, strict rotation over stable membership, empty rotation" }],
+        strata: vec![
+            Stratum { name: "rr_world", quick: 120_000, thorough: (2_000_000) * 5, exhaustive: (false, false), run: rr_world, what: "send placement at return time, strict rotation over stable membership, empty rotation" },
+            Stratum { name: "rr_connect", quick: 60_000, thorough: 5_000_000, exhaustive: (false, false), run: rr_connect, what: "the socket dials 0..4 harness listeners between sends; some listeners appear late, so connect() retries on the virtual clock" },
+        ],
     }
 }
